@@ -169,9 +169,16 @@ func (rn *Runner) runHonest(scRaw interface{}) {
 		if iter <= 0 {
 			iter = 4096
 		}
+		// a second attempt meets either a new salt or - every other scenario - the salt of the first attempt with another
+		// iteration count (RFC 5802 allows a server to raise the count and keep the salt)
+		saltIdx := rn.T + n - 1
+		if n == 2 && rn.T%2 == 0 {
+			saltIdx = rn.T
+			iter = iter*2 + 1
+		}
 		cfg.Auth = func(st *tls.ConnectionState) refsmtp.AuthHandler {
 			h = &refsmtp.HonestAuth{Creds: sasl.Creds{User: su, Pass: sp}, NormUser: normU, NormPass: normP,
-				Salt: saltOf(sc.Salt, rn.T+n-1), Iter: iter, NonceSuffix: suffixOf(sc.Suffix, rn.T+n), Extension: extOf(sc.Suffix),
+				Salt: saltOf(sc.Salt, saltIdx), Iter: iter, NonceSuffix: suffixOf(sc.Suffix, rn.T+n), Extension: extOf(sc.Suffix),
 				Challenge: fmt.Sprintf("<%d.%d@refsmtp.test>", rn.T, n), TLS: st}
 			return h
 		}
